@@ -1025,3 +1025,122 @@ def root_local(body, operand_or_local):
                 continue
         break
     return l
+
+
+# --------------------------------------------------------------------------------------------
+# P11: small forward typestate interpreter
+
+class TypeState:
+    """Forward may-analysis over a body.  Abstract state: dict var -> frozenset(values) (a var missing = ⊤ is
+    not used: every tracked var must be initialised).  Hooks (all optional, return a NEW dict or None):
+      on_stmt(body, bb, i, stmt, st) -> st'
+      on_term(body, bb, term, st)     -> st'          (effect of the terminator itself, e.g. a call)
+      on_edge(body, bb, target, vals, st) -> st' | False (False = edge infeasible under st)
+    Result: self.inp[bb], self.out[bb] after run(); self.at_term[bb] = state just before the terminator's effect."""
+
+    def __init__(self, body, init, on_stmt=None, on_term=None, on_edge=None):
+        self.body = body
+        self.init = {k: frozenset(v) for k, v in init.items()}
+        self.on_stmt = on_stmt
+        self.on_term = on_term
+        self.on_edge = on_edge
+        self.inp = {}
+        self.out = {}
+        self.at_term = {}
+        self.after_stmt = {}
+
+    @staticmethod
+    def join(a, b):
+        if a is None:
+            return dict(b)
+        out = dict(a)
+        for k, v in b.items():
+            out[k] = out.get(k, frozenset()) | v
+        return out
+
+    def run(self, limit=20000):
+        body = self.body
+        self.inp[0] = dict(self.init)
+        work = deque([0])
+        n = 0
+        while work:
+            bb = work.popleft()
+            n += 1
+            if n > limit:
+                raise CheckError('UNRECOGNISED: typestate did not converge in %s' % body.path)
+            st = dict(self.inp[bb])
+            for i, stmt in enumerate(body.blocks[bb]['stmts']):
+                if self.on_stmt:
+                    r = self.on_stmt(body, bb, i, stmt, st)
+                    if r is not None:
+                        st = r
+                self.after_stmt[(bb, i)] = dict(st)
+            self.at_term[bb] = dict(st)
+            t = body.term(bb)
+            if self.on_term:
+                r = self.on_term(body, bb, t, st)
+                if r is not None:
+                    st = r
+            self.out[bb] = dict(st)
+            if t['k'] == 'switch':
+                edges = body.switch_edges(bb)
+                for tgt, vals in edges.items():
+                    s2 = st
+                    if self.on_edge:
+                        r = self.on_edge(body, bb, tgt, vals, dict(st))
+                        if r is False:
+                            continue
+                        if r is not None:
+                            s2 = r
+                    self._flow(tgt, s2, work)
+            else:
+                for tgt in body.succs(bb):
+                    self._flow(tgt, st, work)
+        return self
+
+    def _flow(self, tgt, st, work):
+        old = self.inp.get(tgt)
+        new = self.join(old, st)
+        if old is None or new != old:
+            self.inp[tgt] = new
+            if tgt not in work:
+                work.append(tgt)
+
+
+def place_is_field(p, names):
+    """does place p end with the field-name sequence `names` (ignoring derefs / downcasts in between)?"""
+    got = [e.get('n') for e in p.get('pr', []) if isinstance(e, dict) and 'f' in e]
+    return got[-len(names):] == list(names)
+
+
+def rvalue_variant(body, rv):
+    """if rvalue builds (directly, or via a single-def temp) an ADT variant, return (adt, variant, op terms)"""
+    if 'agg' in rv and rv['agg'].get('kind') == 'adt':
+        return rv['agg']['adt'], rv['agg']['variant'], [body.origin(o) for o in rv['ops']]
+    if 'use' in rv:
+        t = strip_refs(body.origin(rv['use']))
+        if t[0] == 'agg' and t[1].get('kind') == 'adt':
+            return t[1]['adt'], t[1]['variant'], t[2]
+    return None
+
+
+def unawait(t):
+    """strip the `.await` desugaring from an origin term: (poll(Pin::new_unchecked(&mut fut), cx) as Ready).0 -> fut"""
+    cur = t
+    for _ in range(8):
+        cur = strip_refs(cur)
+        if cur[0] == 'field' and cur[1][0] == 'variant' and cur[1][2] == 'Ready':
+            inner = strip_refs(cur[1][1])
+            if is_call(inner, name='poll'):
+                f = strip_refs(inner[2][0])
+                while is_call(f, name='new_unchecked') or is_call(f, name='new') or is_call(f, name='as_mut') or is_call(f, name='into_future'):
+                    f = strip_refs(f[2][0])
+                return f
+        if cur[0] == 'phi':
+            # take the first alternative that unwraps
+            for alt in cur[1]:
+                r = unawait(alt)
+                if r is not alt:
+                    return r
+        return cur
+    return cur
